@@ -672,8 +672,12 @@ def import_graphs(ctx, home, quick):
             for j in imps:
                 m += "A%dx%d: Ig%d.G%d<Ig%d.E%d>\nU%dx%d: [Ig%d.R%d, Ig%d.E%d, string]\n" % (i, j, j, j, j, j, i, j, j, j, j, j)
                 fields += "    r%d: Ig%d.R%d?\n    a%d: A%dx%d\n    u%d: U%dx%d\n    m%d: string->Ig%d.G%d<int>\n" % (j, j, j, j, i, j, j, i, j, j, j, j)
+                # imported types that have a default value of their own (enum, record, record of records), as required fields: the default is spelled in the
+                # importing namespace here and in the imported namespace where that namespace uses the same type itself (D<j>, G<j>)
+                fields += "    ie%d: Ig%d.E%d\n    ir%d: Ig%d.R%d\n    id%d: Ig%d.D%d\n" % (j, j, j, j, j, j, j, j, j)
                 steps += "    s%d: !stream\n      items: Ig%d.R%d\n    g%d: Ig%d.G%d<R%d>\n" % (j, j, j, j, j, j, i)
             m += "R%d: !record\n  fields:\n%s" % (i, fields)
+            m += "D%d: !record\n  fields:\n    inner: R%d\n    e: E%d\n    n: int\n" % (i, i, i)
             m += "Pr%d: !protocol\n  sequence:\n%s" % (i, steps)
             files["g%d/_package.yml" % i] = man
             files["g%d/model.yml" % i] = m
@@ -682,10 +686,10 @@ def import_graphs(ctx, home, quick):
         res = check_outputs(ctx, root, os.path.join(root, "g0"), home, what, "import-graph", full_cpp=(gi % 4 == 0) or not quick, python=False)
         # python: one package per namespace under out/python; the root package imports the others
         if res == "ok":
-            pr = common.run([common.PY, "-c", "import sys; sys.path.insert(0, %r); import ig_0; ig_0.R0; ig_0.Pr0WriterBase; ig_0.BinaryPr0Writer" % os.path.join(root, "out/python")], cpu_s=60)
+            pr = common.run([common.PY, "-c", "import sys; sys.path.insert(0, %r); import ig_0; ig_0.R0; ig_0.Pr0WriterBase; ig_0.BinaryPr0Writer; import importlib; [getattr(importlib.import_module('ig_0' if k == 0 else 'ig_0.ig_%%d' %% k), nm %% k)() for k in range(%d) for nm in ('R%%d', 'D%%d')]" % (os.path.join(root, "out/python"), n)], cpu_s=60)
             ctx.ev()
             if pr.rc != 0:
-                ctx.violation("python-import-failed:import-graph", "%s: the generated Python packages do not import: %s" % (what, pr.stderr[-300:]), {"case_dir": root})
+                ctx.violation("python-import-failed:import-graph", "%s: the generated Python packages do not import, or a record cannot be constructed with its defaults: %s" % (what, pr.stderr[-300:]), {"case_dir": root})
                 res = "bad"
         if res == "rejected":
             ctx.violation("valid-model-rejected:import-graph", "%s: rejected by validate" % what, {"case_dir": root})
